@@ -110,7 +110,7 @@ func updateStump(e *emitter, st u.Stump, label string, dels, adds []u.Hash, targ
 				return fmt.Sprintf("err %d %s", cp.NumLeaves, hs(cp.Roots))
 			}
 			return fmt.Sprintf("ok %d %s %s %d %s %s", cp.NumLeaves, hs(cp.Roots), us(ud.ToDestroy), ud.PrevNumLeaves,
-				pairs(ud.NewDelPos, ud.NewDelHash), pairs(ud.NewAddPos, ud.NewAddHash))
+				pairsCanon(ud.NewDelPos, ud.NewDelHash), pairsCanon(ud.NewAddPos, ud.NewAddHash))
 		})
 	})
 }
